@@ -159,7 +159,7 @@ def coq_term(case, obs):
             if name == "STEPD":
                 row["acc"] = [None, None, None]
             o["rows"].append(row)
-        c = dict(c, extras=True)
+        c = dict(c, extras=False)
         if name == "STEPD":
             # STEPD's checker needs the accuracies: take them from a canonical re-run (they are compared in C05)
             o2 = c05.run_impl(c)
